@@ -236,9 +236,13 @@ def eval_cond(c: Any, pt: dict[str, Fraction]) -> bool | None:
             return False
         return None
     if isinstance(c, sympy.ITE):
+        # ITE(c, a, b) = (c & a) | (~c & b) in Kleene's strong logic, like And / Or above: SymPy rewrites a
+        # conjunction of relationals over a Boolean-valued Piecewise into ITE, and the conjunction it came from is
+        # false as soon as one conjunct is false even where the test c is undefined (a singular operand in c)
         t = eval_cond(c.args[0], pt)
         if t is None:
-            return None
+            a, b = eval_cond(c.args[1], pt), eval_cond(c.args[2], pt)
+            return a if (a is not None and a == b) else None
         return eval_cond(c.args[1] if t else c.args[2], pt)
     if isinstance(c, sympy.Not):
         v = eval_cond(c.args[0], pt)
@@ -282,6 +286,10 @@ def cross_check_subs(e: Any, pt: dict[str, Fraction]) -> str | None:
         return None
     if isinstance(r, sympy.Rational):
         theirs = Fraction(int(r.p), int(r.q))
-        if mine != theirs:
+        # only where the lazy evaluator HAS a value: SymPy's extended arithmetic answers where the exact-rational
+        # meaning is undefined (`Ne(0**(-1.0), -1.0)` is `zoo != -1` = True for SymPy, a division by zero for CPython
+        # and for the evaluator).  An evaluator that were wrongly undefined would show up as an oracle alarm
+        # (python value defined, expression value None), so nothing is lost by not comparing there.
+        if mine is not None and mine != theirs:
             return f"lazy evaluator {mine} != sympy.subs {theirs} for {e} at {pt}"
     return None
